@@ -202,6 +202,7 @@ namespace igris
 
                 int readsize = buf.size() < len ? buf.size() : len;
                 load_data((char *)buf.data(), readsize);
+                skip(len - readsize);
 
                 buf = igris::buffer(buf.data(), readsize);
             }
